@@ -410,6 +410,23 @@ def run(ck):
     ck.floor("C05-PAD", 5)
     check_trunc(ck, prog)
     check_flags_and_width(ck, prog)
+    # block.h: "lzma_block_header_decode() always sets ignore_check to false": a caller's lzma_block that still holds
+    # `true` (or garbage) from an earlier use would otherwise make lzma_block_decoder() skip the integrity check
+    from . import reinit
+    hd = prog.fn("lzma_block_header_decode", "block_header_decoder.c")
+    ck.saw_function(hd)
+    cutb = {b.id for b, i, e in hd.iter_elems() for (l, r, op, node) in ex.writes(e)
+            if ex.strip(l) is not None and ex.strip(l).get("k") == "mem" and ex.strip(l)["f"] == "ignore_check" and
+            r is not None and ex.is_const(r, 0)}
+    if not cutb:
+        raise AnalysisBroken("lzma_block_header_decode: the store block->ignore_check = false was not found")
+    w = reinit._reach_ok_return(prog, hd, cutb)
+    ck.rule("C05-IGNCHK", "lzma_block_header_decode() stores ignore_check = false on every path that returns LZMA_OK")
+    ck.ob("C05-IGNCHK", "lzma_block_header_decode", w is None, common.where(hd),
+          "lzma_block_header_decode: ignore_check = false on every LZMA_OK path" if w is None else
+          "lzma_block_header_decode() can return LZMA_OK via %s without storing block->ignore_check = false: the flag keeps "
+          "whatever the caller's structure held, and lzma_block_decoder() then accepts a Block whose Check does not match "
+          "(damaged data reported as success)" % w, key="IGNCHK:lzma_block_header_decode")
     # Stream Padding / footer positions counted across calls (a damaged stream must be rejected however it is sliced)
     from . import reinit
     ck.rule("C05-ACCUM", "counters that a decoder state tests (Stream Padding alignment, positions) accumulate across calls")
